@@ -62,6 +62,39 @@ def concrete(inp):
     return {"ok": not bad, "detail": "; ".join(bad[:3]), "inputs": inp}
 
 
+def concrete_best(inp):
+    """find_best_fit on the real optimiser over a battery of small data sets: the returned function's squared error on the
+    supplied data must not exceed that of any single fit within the requested orders"""
+    import math
+    import warnings
+    bad = []
+    shapes = [("decaying", lambda x: 0.4 * math.exp(-2 * x)), ("growing", lambda x: 0.02 * math.exp(1.5 * x)), ("flat", lambda x: 0.05 + 0.01 * x)]
+    with warnings.catch_warnings():
+        warnings.simplefilter("ignore")
+        for name, f in shapes:
+            for temps in ((313.15,), (313.15, 333.15)):
+                pts = [(x, t, round(f(x) * (1 + 0.3 * (t - 313.15) / 20), 4)) for t in temps for x in (0.1, 0.3, 0.5, 0.7, 0.9)]
+                for include_zero in (True, False):
+                    for ci in (1, 0):
+                        n, m = 2, len(temps) - 1
+                        data = Measurements(data=[Measurement(*p) for p in pts])
+                        n0 = len(data.data)
+                        best = opt.find_best_fit(data, include_zero=include_zero, component_index=ci, n=n, m=m)
+                        if len(data.data) != n0:
+                            bad.append("find_best_fit changed the caller's data (%d -> %d points)" % (n0, len(data.data)))
+                        loss = lambda g: sum((g(p[0], p[1]) - p[2]) ** 2 for p in pts)
+                        lb = loss(best)
+                        for nn in range(n + 1):
+                            for mm in range(m + 1):
+                                cand = opt.fit(Measurements(data=[Measurement(*p) for p in pts]), n=nn, m=mm, include_zero=include_zero, component_index=ci)
+                                if lb > loss(cand) * (1 + 1e-9) + 1e-15:
+                                    bad.append("%s data at %r, include_zero=%s, component_index=%d: find_best_fit(n=%d, m=%d) returned orders (%d, %d) with squared error %.6e "
+                                               "on the supplied data, the single fit (%d, %d) has %.6e" % (name, temps, include_zero, ci, n, m, best.n, best.m, lb, nn, mm, loss(cand)))
+                        if bad:
+                            return {"ok": False, "detail": "; ".join(bad[:2]), "inputs": inp}
+    return {"ok": True, "detail": "best-of holds on the battery", "inputs": inp}
+
+
 class FitStub:
     """deterministic uninterpreted optimiser: result = FIT_method,len,i(objective at the shared probe vector)"""
 
@@ -143,12 +176,12 @@ def purity(job, npts, include_zero, component_index, entry):
         job.bound(**{"leaves_%s" % tag: got})
 
 
-def best_of(job, npts, n, m):
+def best_of(job, npts, n, m, include_zero=False, component_index=0):
     """find_best_fit: full grid tried, returned candidate has minimal loss on the caller's data"""
     job.bound(measurement_points=npts, max_orders=(n, m))
     pts = _points(npts)
     dom = _dom(pts)
-    tag = "C16/best_of/p%d/n%d/m%d" % (npts, n, m)
+    tag = "C16/best_of/p%d/n%d/m%d/zero%d/c%d" % (npts, n, m, int(include_zero), component_index)
     with Patches() as pt:
         stub = FitStub(job)
         pt.set(opt.optimize, "minimize", stub)
@@ -180,7 +213,7 @@ def best_of(job, npts, n, m):
             fits.clear()
             named_losses.clear()
             data = Measurements(data=list(pts))
-            best = opt.find_best_fit(data, include_zero=False, component_index=0, n=n, m=m)
+            best = opt.find_best_fit(data, include_zero=include_zero, component_index=component_index, n=n, m=m)
             return best, list(fits), list(named_losses)
 
         got = 0
@@ -207,8 +240,8 @@ def best_of(job, npts, n, m):
                     for mm in pts:
                         e = fit_value(coef, mm.x, mm.t) - mm.p.t
                         want = want + e * e
-                    job.prove("%s/leaf%d/loss_of_candidate%d_is_squared_error_on_caller_data" % (tag, got, ci), cs, lift(v) != want, R_, {"entry": "best"},
-                              fallback=[{"entry": "best"}], timeout=20, congruence=["EXP"], near=1)
+                    job.prove("%s/leaf%d/loss_of_candidate%d_is_squared_error_on_caller_data" % (tag, got, ci), cs, lift(v) != want, "vf.props.C16:concrete_best",
+                              {"entry": "best"}, fallback=[{"entry": "best"}], timeout=20, congruence=["EXP"], near=1)
                 lb = lift(nl[idx[0]])
                 # only the recorded comparisons are needed: the (nonlinear) defining equalities of the named losses are left out
                 # of the premises (dropping premises is sound for unsat and keeps the query linear)
@@ -311,6 +344,8 @@ def jobs(tier):
                         continue
                     js.append(("purity_%s_p%d_z%d_c%d" % (entry, p, int(iz), ci), "purity", {"npts": p, "include_zero": iz, "component_index": ci, "entry": entry}))
     js.append(("best_of_p3_n1_m1", "best_of", {"npts": 3, "n": 1, "m": 1}))
+    js.append(("best_of_p2_n1_m0_zero_c1", "best_of", {"npts": 2, "n": 1, "m": 0, "include_zero": True, "component_index": 1}))
+    js.append(("best_of_p3_n1_m1_zero_c0", "best_of", {"npts": 3, "n": 1, "m": 1, "include_zero": True, "component_index": 0}))
     if tier == "thorough":
         js.append(("best_of_p3_n2_m1", "best_of", {"npts": 3, "n": 2, "m": 1}))
         js.append(("best_of_p4_n1_m1", "best_of", {"npts": 4, "n": 1, "m": 1}))
